@@ -238,7 +238,7 @@ def l_prod_matmul():
 
 # ---- engine L status ---------------------------------------------------------------------------------
 
-LEAN_FILES = {'Folds.lean': ('C01', 'C03', 'C04', 'C13', 'C08', 'C10'), 'Duality.lean': ('C18', 'C20', 'C05'), 'Sums.lean': ('C11', 'C12'), 'Krylov.lean': ('C14', 'C15')}
+LEAN_FILES = {'Folds.lean': ('C01', 'C03', 'C04', 'C13', 'C08', 'C10'), 'Duality.lean': ('C18', 'C20', 'C05'), 'Sums.lean': ('C11', 'C12'), 'Krylov.lean': ('C14', 'C15', 'C08', 'C10')}
 
 def lean_stamp_path():
     return os.path.join(os.path.dirname(HERE), 'build', 'lean_stamp.json')
